@@ -18,7 +18,8 @@ pub fn gen_char(rng: &mut Rng, alphabet: Alphabet) -> &'static str {
     const ASCII: [&str; 20] = ["a", "b", "c", "x", "y", "z", "0", "1", "7", " ", "'", "%", "=", ";", ",", "-", ".", "A", "Q", "_"];
     const MULTI: [&str; 12] = ["é", "ß", "ø", "Ω", "€", "日", "本", "✓", "😀", "𝄞", "🚀", "ü"];
     const BLANK: [&str; 6] = [" ", "\t", "\r", "  ", "a", "b"];
-    const ODD: [&str; 10] = ["\u{FEFF}", "\0", "\u{2028}", "\u{2029}", "\u{85}", "\x0b", "\x0c", "\r", "\u{1b}", "\u{a0}"];
+    // incl. the replacement character itself (valid UTF-8) and complete ANSI escape sequences (coloured logs)
+    const ODD: [&str; 14] = ["\u{FEFF}", "\0", "\u{2028}", "\u{2029}", "\u{85}", "\x0b", "\x0c", "\r", "\u{1b}", "\u{a0}", "\u{FFFD}", "\x1B[31m", "\x1B[0m", "\x1B[1;32m"];
     match alphabet {
         Alphabet::Odd => {
             if rng.chance(1, 3) {
